@@ -61,6 +61,28 @@ def run(ctx):
         ctx.notes.append("hashiter.py failed: " + out[-300:])
     unclassified = [s for s in scan["sites"] if s["class"] == "unclassified"]
     observable = [s for s in scan["sites"] if s["class"] == "observable"]
+    # An iteration over a std HashMap/HashSet that the classification table does not know is new or edited code: its order
+    # may reach an output.  That is a broken tie naming the site (the K-fold search below is widened as well and is what
+    # produces a concrete failing input when the order really is observable).
+    for s_ in unclassified:
+        ctx.broken_ties.append(("hash-iteration site", f"{s_['file']}:{s_['line']} fn {s_['fn']}: `{s_['text']}` iterates the std "
+                                f"HashMap/HashSet `{s_['receiver']}` and is not classified in tools/hashiter.py: the iteration order follows "
+                                "the process's RandomState; sort what it yields (or use an ordered collection) before it can reach Go text, "
+                                "a dump, a diagnostic or a hash — or classify the site as order-insensitive with the reason"))
+    for s_ in observable:
+        ctx.broken_ties.append(("hash-iteration site", f"{s_['file']}:{s_['line']} fn {s_['fn']}: `{s_['text']}` is listed as OBSERVABLE "
+                                f"in tools/hashiter.py ({s_['why']})"))
+    # the scanner itself: every way of introducing a hash-typed binding x every way of iterating it must be seen
+    rc2, out2 = vlib.sh([sys.executable, os.path.join(vlib.VERIF, "tools", "hashiter.py"), "--selftest"])
+    scan_selftest = {}
+    try:
+        scan_selftest = json.loads(out2)
+    except Exception:
+        ctx.broken_ties.append(("hashiter selftest", "tools/hashiter.py --selftest failed: " + out2[-300:]))
+    for miss in scan_selftest.get("missed", [])[:10]:
+        ctx.broken_ties.append(("hashiter selftest", f"the scanner does not see the hash iteration `{miss}`"))
+    for fp in scan_selftest.get("false_positives", [])[:10]:
+        ctx.broken_ties.append(("hashiter selftest", f"the scanner reports an ordered collection as a hash iteration: `{fp}`"))
     if not ctx.build_harness():
         return ctx.finish("proof", {"evaluations": 0, "distinct_nontrivial": 0}, [], "lake build")
     extra = ["widen"] if unclassified else []
@@ -219,6 +241,14 @@ def run(ctx):
             payload.update({"sources": src, "listing_master_process": a_txt, "listing_child_process": b_txt, "child": xproc_child[pid]})
             if "diagnostics" in chans and a_txt != b_txt:
                 sig = classify([{"channel": "diagnostics", "a": a_txt, "b": b_txt}])
+            elif "go" in chans and pid.startswith("emit-") and a_txt != b_txt:
+                # emission-collections family: the listings are the declaration skeletons of the two Go texts
+                la, lb = a_txt.split("\n"), b_txt.split("\n")
+                i = next((j for j, (x, y) in enumerate(zip(la, lb)) if x != y), min(len(la), len(lb)))
+                item = (la[i] if i < len(la) else "").split(" ")[0].split("(")[0]
+                fd = f"declaration {i + 1} [in {item}]: `{la[i] if i < len(la) else ''}` vs `{lb[i] if i < len(lb) else ''}`"
+                sig = classify([{"channel": "go", "a": a_txt, "b": b_txt, "first_difference": fd}])
+                payload["first_difference"] = fd
         ctx.report(sig, f"another process compiling the same sources produced different bytes ({sig['kind']})", payload)
 
     cov = {
@@ -241,6 +271,7 @@ def run(ctx):
             "unclassified": [{k: s[k] for k in ("file", "line", "fn", "text")} for s in unclassified],
             "observable": [{k: s[k] for k in ("file", "line", "fn", "text", "why")} for s in observable],
             "search_widened": bool(unclassified),
+            "scanner_selftest": {k: scan_selftest.get(k) for k in ("cases", "introductions", "iterations", "missed", "false_positives")},
         },
     }
     if unclassified:
